@@ -47,8 +47,19 @@ func typeStr(t types.Type) string {
 	return types.TypeString(t, nil)
 }
 
+// plain data records of the kyber library whose exported fields the ceremony code reads directly
+var expandedExternal = map[string]bool{
+	"github.com/corestario/kyber/share/dkg/pedersen.Deal":     true,
+	"github.com/corestario/kyber/share/dkg/pedersen.Response": true,
+	"github.com/corestario/kyber/share/vss/pedersen.Deal":     true,
+	"github.com/corestario/kyber/share/vss/pedersen.Response": true,
+}
+
 func expandStruct(t types.Type) bool {
 	if n, ok := t.(*types.Named); ok {
+		if n.Obj().Pkg() != nil && expandedExternal[n.Obj().Pkg().Path()+"."+n.Obj().Name()] {
+			return true
+		}
 		return inModule(n.Obj().Pkg())
 	}
 	if a, ok := t.(*types.Alias); ok {
